@@ -74,6 +74,20 @@ class WireManagerBase(abc.ABC):
             wire_descriptions = [str(wire) for wire in self.wires]
             raise InconsistentGradingsError(f"Inconsistent counts on wires {wire_descriptions} ({counts})")
 
+        # blockMesh also requires the same cell distribution on edges shared with other blocks
+        for wire in self.wires:
+            for coincident in wire.coincidents:
+                if coincident.is_aligned(wire):
+                    expected = coincident.grading
+                else:
+                    expected = coincident.grading.inverted
+
+                if wire.grading != expected:
+                    raise InconsistentGradingsError(
+                        f"Inconsistent gradings on coincident wires {wire} ({wire.grading}) and "
+                        f"{coincident} ({coincident.grading})"
+                    )
+
 
 class WireChopManager(WireManagerBase):
     """Responsible for conversion of user-specified Chops
